@@ -10,7 +10,12 @@ def lines_of(text):
 
 
 def assigned_names(lines):
-    return [m.group(1) for l in lines for m in [re.match(r"^(\w+) = ", l)] if m]
+    out = []
+    for l in lines:
+        m = re.match(r"^((?:\w+ = )+)", l)
+        if m:
+            out += re.findall(r"(\w+) = ", m.group(1))
+    return out
 
 
 def inject(rng, text):
@@ -29,10 +34,36 @@ def inject(rng, text):
     kind = rng.choice(["unset_wire", "unset_bank_in", "unset_builtin", "partial", "redecl_wire", "redecl_builtin", "redecl_const",
                        "redecl_as_const", "redecl_bank_signal", "dup_register", "assign_twice", "assign_twice_builtin",
                        "read_undeclared", "assign_undeclared", "assign_bank_out", "assign_builtin_out", "assign_const",
-                       "assign_preamble_const", "const_reads_wire", "default_reads_wire", "partial_disabled_ok"])
+                       "assign_preamble_const", "const_reads_wire", "default_reads_wire", "partial_disabled_ok",
+                       "assign_twice_in_chain", "assign_twice_in_chain"])
 
     def drop_assign(name):
-        return [l for l in lines if not l.startswith(name + " = ")]
+        out = []
+        for l in lines:
+            m = re.match(r"^((?:\w+ = )+)(.*)$", l)
+            if m:
+                names = re.findall(r"(\w+) = ", m.group(1))
+                if name in names:
+                    names = [n for n in names if n != name]
+                    if not names:
+                        continue
+                    l = "".join(n + " = " for n in names) + m.group(2)
+            out.append(l)
+        return out
+
+    def unchain(name):
+        """Rewrite the program so that `name` has an assignment line of its own."""
+        out = []
+        for l in lines:
+            m = re.match(r"^((?:\w+ = )+)(.*)$", l)
+            if m:
+                names = re.findall(r"(\w+) = ", m.group(1))
+                if name in names and len(names) > 1:
+                    out.append("".join(n + " = " for n in names if n != name) + m.group(2))
+                    out.append("%s = %s" % (name, m.group(2)))
+                    continue
+            out.append(l)
+        return out
 
     def add(*new):
         out = lines + list(new)
@@ -53,11 +84,13 @@ def inject(rng, text):
         opts = [(a, b) for a, b in opts if a in assigned and b in assigned]
         if opts:
             a, b = rng.choice(opts)
+            lines[:] = unchain("mem_writebit")
             new = drop_assign(a)
             if a == "mem_input":
                 new = [l if not l.startswith("mem_writebit = ") else "mem_writebit = (P_pc)[0..1];" for l in new]
             return new, "PartialFixedInput", b, kind
     if kind == "partial_disabled_ok" and "mem_input" in assigned:
+        lines[:] = unchain("mem_writebit")
         new = drop_assign("mem_input")
         new = [l if not l.startswith("mem_writebit = ") else "mem_writebit = %s;" % rng.choice(["0", "0b0", "FALSE", "(1 == 2)"]) for l in new]
         return new, None, None, kind
@@ -89,12 +122,33 @@ def inject(rng, text):
     if kind == "assign_twice" and wires:
         w = rng.choice(wires + bank_in)
         return add("%s = 0;" % w), "DoubleAssignedWire", w, kind
+    if kind == "assign_twice_in_chain":
+        # the same target twice within ONE chained assignment: x = x = e, x = y = x = e, and for built-in inputs
+        cands = [n for n in assigned if n in wires or n in bank_in or n in ("reg_srcA", "mem_addr", "reg_dstE", "mem_input", "reg_inputM")]
+        if cands:
+            w = rng.choice(cands)
+            new, done = [], False
+            for l in lines:
+                m = re.match(r"^((?:\w+ = )*)%s = (.*)$" % re.escape(w), l)
+                if m and not done:
+                    done = True
+                    form = rng.randint(0, 2)
+                    if form == 0:
+                        l = "%s%s = %s = %s" % (m.group(1), w, w, m.group(2))
+                    elif form == 1:
+                        l = "%s = %s%s = %s" % (w, m.group(1), w, m.group(2))
+                    else:
+                        l = "%s%s = %s = %s = %s" % (m.group(1), w, w, w, m.group(2))
+                new.append(l)
+            if done:
+                return new, "DoubleAssignedWire", w, kind
     if kind == "assign_twice_builtin":
         w = rng.choice([n for n in assigned if n in ("pc", "Stat", "reg_srcA", "mem_addr", "reg_dstE")])
         return add("%s = 0;" % w), "DoubleAssignedWire", w, kind
     if kind == "read_undeclared":
         tgt = rng.choice(wires) if wires else None
         if tgt:
+            lines[:] = unchain(tgt)
             new = [l[:-1] + " ^ zz9;" if l.startswith(tgt + " = ") else l for l in lines]
             new = [re.sub(r"^(%s = )(.*) \^ zz9;$" % tgt, r"\1((\2) ^ zz9);", l) for l in new]
             return new, "UndeclaredWireRead", "zz9", kind
@@ -166,7 +220,7 @@ def check(report, tier, seed):
     report.coverage["evaluations"] = len(cases)
     report.coverage["distinct_nontrivial"] = len(set(c["hcl"] for c in cases.values() if c["fault"] != "none"))
     report.coverage["rule"] = ("a correct random program (1-12, thorough up to 40 wires, banks, register file, memory) with exactly one injected driver fault "
-                               "of a known kind on a known name (21 fault classes over plain wires, constants incl. preamble ones, bank inputs/outputs, "
+                               "of a known kind on a known name (22 fault classes incl. a name repeated within one chained assignment, over plain wires, constants incl. preamble ones, bank inputs/outputs, "
                                "stall/bubble, built-in inputs/outputs), or none; oracle 1: rejected with a diagnostic of that kind naming that wire / accepted "
                                "when fault-free; oracle 2: verdict, diagnostic multiset and compiled program equal the model's build_program")
     report.coverage["distribution"] = dict(stats, **{"fault_" + k2: v2 for k2, v2 in by.items()})
